@@ -1,4 +1,5 @@
 """C15 -- matching a binary equals matching its `objdump -d -M att` text."""
+from ..facts import AnalysisError
 from ..matchflow import match_interp, run_sequence
 from ..values import Obj
 
@@ -84,6 +85,8 @@ def run(ctx) -> None:
     # case-sensitive option names intel / intel-mnemonic; anything else after -M leaves AT&T output, and the property
     # pins the binary route to the -M att text)
     import re as _re
+    if _re.findall(r"'-M', ([^,\]]+)", "['objdump', '-d', '-M', 'intel', <INPUT_0>]") != ["'intel'"]:
+        raise AnalysisError("C15.B5 positive control: the -M argument is no longer extracted from an argv rendering")
     for st in ("intel", "att"):
         runs = run_sequence(I, [{"config": {"style": st}, "file_type": "binary"}])
         bad = set()
